@@ -30,9 +30,9 @@ META = {
         "Theorems in Coq 8.16 over an executable model of the memoisation plumbing (four process-wide LRU tables of "
         "capacity 128 keyed by HashArray, per-object _cache, dependents of `other`, views made by slicing, sharing of "
         "memory between results and caches, TimeBase.to_scale memo) with the numerical functions left uninterpreted: "
-        "for every operation list the specification machine shows exactly what the cache-free machine shows; item "
-        "assignment and mutation of `other` are reflected; writes into results are isolated; arguments stay untouched; "
-        "one refutation per quirk.  Tied to the code on every run: histories are executed on midgard in fresh processes "
+        "for every operation list without Slice (cache_invisible_partial) the specification machine shows exactly what the "
+        "cache-free machine shows; item assignment and mutation of `other` are reflected; writes into results are isolated; "
+        "arguments stay untouched; one refutation per quirk; the time-scale memo has a witness but no refinement theorem.  Tied to the code on every run: histories are executed on midgard in fresh processes "
         "and compared inside Coq with the model, whose functions are instantiated by uncached reference evaluations."),
     "level_note": (
         "Trusted: Coq kernel + vm_compute; the hand-written model Model/C08_Cache.v (validated, not derived); the driver "
@@ -41,15 +41,12 @@ META = {
         "modelled as the inverse of `other`."),
 }
 
-THEOREMS_FULL = [
+THEOREMS = [
     "lru_transparent", "lru_size_le",
-    "cache_invisible", "setitem_invalidates", "other_mutation_propagates", "result_write_isolated", "args_untouched",
-    "time_cache_invisible",
+    "cache_invisible_partial", "setitem_invalidates", "other_mutation_propagates", "result_write_isolated", "args_untouched",
     "c08_key_ignores_shape_refuted", "c08_result_aliases_cache_refuted", "c08_arg_made_readonly_refuted",
     "c08_view_write_stale_refuted", "c08_object_cache_handout_refuted", "c08_time_cache_ignores_fmt_refuted",
 ]
-
-THEOREMS = ["lru_transparent", "lru_size_le"]
 
 REQ = "From Verif Require Import Model.C08_Cache."
 
@@ -626,21 +623,25 @@ def gen_histories(ctx):
                     ("Read", 0, 1)]),
     ]
     hs.extend(corpus)
-    full = 3 if quick else 4
-    n_sample = 260 if quick else 2500          # per scenario, one length above the exhaustive bound
+    light = bool(os.environ.get("VERIF_C08_LIGHT"))     # developer switch: a subset of the quick tier (mutant screening)
+    full = int(os.environ.get("VERIF_C08_LIGHT")) if light else 3 if quick else 4
+    only = os.environ.get("VERIF_C08_SCEN")             # developer switch: restrict to some alphabets
+    n_sample = 0 if light else 120 if quick else 1500          # per scenario, one length above the exhaustive bound
     for name, prelude, alpha in scenarios(not quick):
+        if only and name not in only.split(","):
+            continue
         for L in range(1, full + 1):
             for combo in itertools.product(alpha, repeat=L):
                 hs.append((name, prelude + list(combo)))
         for _ in range(n_sample):
             hs.append((name, prelude + [rng.choice(alpha) for _ in range(full + 1)]))
         # long random histories
-        for _ in range(25 if quick else 300):
+        for _ in range(0 if light else 15 if quick else 150):
             L = rng.randrange(6, 41)
             hs.append((name + "-long", prelude + [rng.choice(alpha) for _ in range(L)]))
     # mixed alphabet, long
     allsc = scenarios(not quick)
-    for _ in range(40 if quick else 500):
+    for _ in range(0 if light else 40 if quick else 300):
         name, prelude, alpha = rng.choice(allsc)
         name2, prelude2, alpha2 = rng.choice(allsc)
         L = rng.randrange(8, 41)
@@ -658,6 +659,7 @@ TVALS = {
     ("mjd", 0): [58000.0, 58001.5],
     ("isot", 1): ["2019-01-01T06:00:00", "2019-03-02T18:00:00"],
     ("iso", 1): ["2019-01-01 06:00:00", "2019-03-02 18:00:00"],
+    ("isot", 3): ["2017-09-04T06:00:00", "2017-09-05T18:00:00"],     # same days as value 0, other day fractions
     ("isot", 2): "2017-09-04T00:00:00",
     ("iso", 2): "2017-09-04 00:00:00",
 }
@@ -710,16 +712,18 @@ def run_time_history(ops):
 
 def gen_time_histories(ctx):
     news = [("TNew", 0, "utc", "isot", 0), ("TNew", 1, "utc", "datetime", 0), ("TNew", 2, "utc", "iso", 1),
-            ("TNew", 3, "utc", "mjd", 0), ("TNew", 4, "utc", "isot", 2), ("TNew", 5, "utc", "iso", 2), ("TNew", 6, "tai", "iso", 0)]
+            ("TNew", 3, "utc", "mjd", 0), ("TNew", 4, "utc", "isot", 2), ("TNew", 5, "utc", "iso", 2), ("TNew", 6, "tai", "iso", 0),
+            ("TNew", 7, "utc", "isot", 3)]
     alpha = [("TScale", 0, "tai"), ("TScale", 1, "tai"), ("TScale", 2, "tai"), ("TScale", 3, "tai"), ("TScale", 4, "gps"),
-             ("TScale", 5, "gps"), ("TScale", 1, "utc"), ("TScale", 0, "utc"), ("TScale", 6, "utc"), ("TScale", 0, "tt"),
+             ("TScale", 5, "gps"), ("TScale", 7, "tai"), ("TScale", 1, "utc"), ("TScale", 0, "utc"), ("TScale", 6, "utc"), ("TScale", 0, "tt"),
              ("TFlood", 130)]
     hs = []
-    full = 3 if ctx.quick() else 4
+    light = bool(os.environ.get("VERIF_C08_LIGHT"))
+    full = 2 if light else 3 if ctx.quick() else 4
     for L in range(1, full + 1):
         for combo in itertools.product(alpha, repeat=L):
             hs.append(news + list(combo))
-    for _ in range(100 if ctx.quick() else 1500):
+    for _ in range(0 if light else 60 if ctx.quick() else 1500):
         hs.append(news + [ctx.rng.choice(alpha) for _ in range(ctx.rng.randrange(5, 30))])
     return hs
 
@@ -773,6 +777,12 @@ def _run(ctx, srv):
     tables = build_tables(ref, [g[3] for g in good])
     ctx.log(f"{len(ref.memo)} reference evaluations")
     shard_size = 400
+    # candidate quirk sets: explanations by *open* findings alone are looked for first (fewest quirks first)
+    open_bits = sum(1 << bit for bit, fid, _ in QUIRK_BITS
+                    if any(k.get("id") == fid and k.get("status", "open") == "open" for k in ctx.known))
+    # ... and among equally small sets those with fewer LRU-level quirks (bits 0-2), which the proposed fix removes
+    order = sorted(range(1, 32), key=lambda n: (0 if n & ~open_bits == 0 else 1, bin(n).count("1"), bin(n & 7).count("1"), n))
+    cand = emit.lst(str(n) for n in order)
     shards, index = [], []
     for i in range(0, len(good), shard_size):
         pool = Pool()
@@ -782,7 +792,7 @@ def _run(ctx, srv):
             ot = emit.lst(op_term(pool, o) for o in ops)
             st = emit.lst(f"({pool.ref(a)}, {emit.z(x)})" for a, x in seen)
             terms.append(f"({tt}, {ot}, {st})")
-        shards.append(shard_term("check_hist", pool, terms))
+        shards.append(shard_term(f"(check_hist_with {cand})", pool, terms))
     vs = ctx.coq_cases(shards, REQ)
     flat = emit.flatten_verdicts(vs, len(good))
     if flat is None:
